@@ -113,6 +113,18 @@ def main():
                     except Exception as ex:
                         viol.append({"what": f"constructor raised {type(ex).__name__}", "a": f"{cname}({cont})"}); continue
                     invs.append((f"{cname}({cont!r},{dl})", inv, (cname, canon, dc), tuple(tags)))
+    # exact amounts that differ by less than a double can resolve: the high-precision class must tell them apart,
+    # and must identify equal values written differently
+    NA = 602214076000000000000000
+    fine = [("NA", sympy.Integer(NA)), ("NA+1", sympy.Integer(NA + 1)), ("NA again", sympy.Rational(2 * NA, 2)),
+            ("1/3", sympy.Rational(1, 3)), ("1/3+1e-40", sympy.Rational(1, 3) + sympy.Rational(1, 10**40)), ("2/6", sympy.Rational(2, 6))]
+    k_f = names[0]
+    hp_fine = [(lab, rd.InventoryHP({k_f: v}, "num"), v) for lab, v in fine]
+    for (la, a, va), (lb, b, vb) in itertools.product(hp_fine, repeat=2):
+        chk_pair(a, b, f"InventoryHP({{{k_f!r}: {la}}})", f"InventoryHP({{{k_f!r}: {lb}}})", expect=(va == vb))
+        sa, sb = a * sympy.Rational(1, 2), b * sympy.Rational(1, 2)
+        chk_pair(sa, sb, f"InventoryHP({{{k_f!r}: {la}}})/2", f"InventoryHP({{{k_f!r}: {lb}}})/2", expect=(va == vb))
+
     def compare_all(stage):
         for (la, a, sa, ta), (lb, b, sb, tb) in itertools.combinations_with_replacement(invs, 2):
             same_cls = sa[0] == sb[0]
